@@ -158,12 +158,32 @@ pub fn check(case: &Case) -> Result<Stats, String> {
     rich.method = Some("GET".to_string());
     rich.headers = vec![("X-A".to_string(), "Foo".to_string())];
     let request = rich.build(&config);
-    let n_routers = if k <= 6 { 6 } else { 3 };
+    let n_routers = if k <= 6 { 8 } else { 4 };
     for variant in 0..n_routers {
         let mut order: Vec<usize> = (0..k).collect();
         rng.shuffle(&mut order);
         let mut router = Router::<Rule>::from_config(cfg.build());
-        match variant % 3 {
+        match variant % 4 {
+            3 => {
+                // earlier versions of some rules (another trigger set, still satisfied by the request, other
+                // effects) are live first; an update-only change-set (nothing deleted) brings the final versions
+                let mut updated = Vec::new();
+                for i in &order {
+                    let r = &case.rules[*i];
+                    if rng.coin() {
+                        let mut old = r.clone();
+                        old.methods = Some(vec!["GET".into(), "PUT".into()]);
+                        old.headers.clear();
+                        old.effects.status_code = Some(307);
+                        old.effects.header_filters = vec![("add".to_string(), "X-Old-Version".to_string(), "1".to_string())];
+                        router.insert(old.to_rule());
+                        updated.push(r.to_rule());
+                    } else {
+                        router.insert(r.to_rule());
+                    }
+                }
+                router.apply_change_set(vec![], updated, Default::default());
+            }
             0 => {
                 for i in &order {
                     router.insert(case.rules[*i].to_rule());
